@@ -10,7 +10,8 @@ import sys
 import time
 
 V = os.path.dirname(os.path.dirname(os.path.abspath(__file__)))
-SV, SR = "/tmp/vscratch", "/tmp/rscratch"
+SFX = os.environ.get("SCRATCH_SUFFIX", "")
+SV, SR = "/tmp/vscratch" + SFX, "/tmp/rscratch" + SFX
 SCALE = os.environ.get("SENS_SCALE", "0.25")
 
 
